@@ -627,13 +627,17 @@ func init() {
 func init() {
 	register(&Check{
 		ID: "C10", Level: "fault_enumeration",
-		Rule:        "crash points = every snapshot persisted during a conformance history: explicit SaveToStore operations sprinkled over every position of the history (all job states: waiting, delayed, running with a subset of tasks done, completed, failed, canceled in each phase, unstartable) and the saves of the persist loop, recorded by a wrapper around the REAL JsonDataStore that copies data.json aside after every save; for EACH of them a fresh runner is started on the copy and must report: every job terminal, no pipeline running, every pipeline schedulable and its first request accepted (started at once without delay), id multiset equal to the snapshot's, and every job that was finished in the snapshot exactly as the live runner reports it (flags, timestamps with time.Equal, user, lastError text, variables deep-equal as arbitrary JSON values with floats of 1-17 significant digits over 1e-9..1e21, task order / status / times / exit code / errored / error text / skipped). Every 4th case is a prepared store 'from an earlier run' with every mix of flags and task statuses (incl. states that exist only between two steps of the runner, non-UTC zones, sub-microsecond digits). A situation is (finished, running, waiting) of a snapshot / the state of a restarted job",
+		Rule:        "crash points = every snapshot persisted during a conformance history: explicit SaveToStore operations sprinkled over every position of the history (all job states: waiting, delayed, running with a subset of tasks done, completed, failed, canceled in each phase, unstartable) and the saves of the persist loop, recorded by a wrapper around the REAL JsonDataStore that copies data.json aside after every save; for EACH of them a fresh runner is started on the copy and must report: every job terminal, no pipeline running, every pipeline schedulable and its first request accepted (started at once without delay), id multiset equal to the snapshot's, and every job that was finished in the snapshot exactly as the live runner reports it (flags, timestamps with time.Equal, user, lastError text, variables deep-equal as arbitrary JSON values with floats of 1-17 significant digits over 1e-9..1e21, task order / status / times / exit code / errored / error text / skipped). After every explicit save the store is also compared in the other direction (no job in it that is no longer reported), and every 50th case runs the real JSON store through a save that leaves no job at all (pipelines removed by a reload, retention period) before the restart. Every 4th case is a prepared store 'from an earlier run' with every mix of flags and task statuses (incl. states that exist only between two steps of the runner, non-UTC zones, sub-microsecond digits). A situation is (finished, running, waiting) of a snapshot / the state of a restarted job",
 		Assumptions: []string{seqAssumption, "a crash is modelled as 'the process restarts from the last snapshot that reached the store'; C09 covers what can be on disk"},
 		Cases:       func(t string) int { return tierN(t, 600, 14000) },
 		RunCase: func(c *CaseCtx) *CaseResult {
 			if c.Idx%50 == 18 {
 				// saves that fail because a job variable cannot be encoded leave the last good snapshot in place
 				return simpleCase(c, drv.RunUnencodableSaveThenRestartCase(int64(c.Idx/50), c.TmpDir), 5)
+			}
+			if c.Idx%50 == 30 {
+				// a save that leaves no job at all (pipelines removed by a reload, retention period) is a snapshot like any other
+				return simpleCase(c, drv.RunPurgeAllThenRestartCase(int64(c.Idx/50), c.TmpDir), 5)
 			}
 			if c.Idx%4 == 3 {
 				h := drv.PreparedStoreCase(c.Seed, c.TmpDir)
